@@ -29,6 +29,9 @@ fn main() {
         "pratt-replay" => pratt::replay(rest),
         "pratt-emit" => pratt::emit(rest),
         "tt-observe" => big_stack(move || tt::observe_cmd(&rest2)),
+        "json-grammar" => jsonc::grammar(rest),
+        "json-replay" => big_stack(move || jsonc::replay(&rest2)),
+        "json-emit" => big_stack(move || jsonc::emit(&rest2)),
         "c01-replay" => big_stack(move || c01::replay(&rest2)),
         "stack-replay" => stack::replay(rest),
         "stack-emit" => stack::emit(rest),
